@@ -143,25 +143,27 @@ class FakeTRX(Transceiver):
 
 	@property
 	def toa256(self):
+		# Read both values once: FAKE_* commands are handled by another thread
+		base, threshold = self.toa256_base, self.toa256_rand_threshold
+
 		# Check if randomization is required
-		if self.toa256_rand_threshold == 0:
-			return self.toa256_base
+		if threshold == 0:
+			return base
 
 		# Generate a random ToA value in required range
-		toa256_min = self.toa256_base - self.toa256_rand_threshold
-		toa256_max = self.toa256_base + self.toa256_rand_threshold
-		return random.randint(toa256_min, toa256_max)
+		return random.randint(base - threshold, base + threshold)
 
 	@property
 	def rssi(self):
+		# Read both values once: FAKE_* commands are handled by another thread
+		base, threshold = self.rssi_base, self.rssi_rand_threshold
+
 		# Check if randomization is required
-		if self.rssi_rand_threshold == 0:
-			return self.rssi_base
+		if threshold == 0:
+			return base
 
 		# Generate a random RSSI value in required range
-		rssi_min = self.rssi_base - self.rssi_rand_threshold
-		rssi_max = self.rssi_base + self.rssi_rand_threshold
-		return random.randint(rssi_min, rssi_max)
+		return random.randint(base - threshold, base + threshold)
 
 	@property
 	def tx_power(self):
@@ -169,14 +171,15 @@ class FakeTRX(Transceiver):
 
 	@property
 	def ci(self):
+		# Read both values once: FAKE_* commands are handled by another thread
+		base, threshold = self.ci_base, self.ci_rand_threshold
+
 		# Check if randomization is required
-		if self.ci_rand_threshold == 0:
-			return self.ci_base
+		if threshold == 0:
+			return base
 
 		# Generate a random C/I value in required range
-		ci_min = self.ci_base - self.ci_rand_threshold
-		ci_max = self.ci_base + self.ci_rand_threshold
-		return random.randint(ci_min, ci_max)
+		return random.randint(base - threshold, base + threshold)
 
 	# Path loss simulation: burst dropping
 	# Returns: True - drop, False - keep
